@@ -3,7 +3,7 @@ import math
 from fractions import Fraction as Fr
 from .. import gtlib
 from ..gtlib import cq, cvec, cmat, cb3, cbool, cseq, jarr, Obs
-from . import common as C, lin
+from . import common as C, lin, c16
 
 PROP = "C14"
 PROPS_FILE = "props/C14.v"
@@ -15,9 +15,13 @@ RULE = ("cases = integrate('log u(x)', factor=f) for every factor kind (general,
 EXPLANATION = ("model ExpLog.v (built on the quadratic-inner moment of Moments.v) at Qc in the log domain vs implementation "
                "(result divided by the total mass); oracle: closed form -1/2 (tr(A' Lambda A S) + (A m + a)' Lambda (A m + a)) - 1/2 "
                "ln det(2 pi Sigma) resp. -1/2 (tr(Lambda_f S) + m' Lambda_f m) + nu_f.m + ln beta_f from the exact moments (numpy)")
+def _main(d):
+    return d.get("u") or d.get("q") or d.get("p") or d["f"]["p"]
+
+
 hist = lambda d: dict(scn=d["scn"], cls=(d.get("c") or {}).get("cls"), kind=(d.get("f") or {}).get("kind"),
-                      R=(d.get("u") or d.get("q") or d.get("p"))["R"], D=(d.get("u") or d.get("q") or d.get("p"))["D"])
-nontrivial = lambda d: (d.get("u") or d.get("q") or d.get("p"))["R"] * (d.get("u") or d.get("q") or d.get("p"))["D"] > 1
+                      R=_main(d)["R"], D=_main(d)["D"])
+nontrivial = lambda d: _main(d)["R"] * _main(d)["D"] > 1
 scenario = lambda d: d["scn"] + "/" + str((d.get("c") or {}).get("cls") or (d.get("f") or {}).get("kind"))
 
 
@@ -46,6 +50,12 @@ def gen_descs(g, tier):
         if cls in ("full", "diag"):
             c = lin.gen_cond(g, cls, 2, 2, 1)
             out.append(dict(scn="log_cond", c=c, q=lin.gen_pdfv(g, 2, 3, ctor="Sigma")))
+    for kind in ("lrbf", "lsem"):
+        for (Dx, Dy, Dk, Rq) in [(1, 1, 1, 1), (1, 2, 2, 2), (2, 1, 1, 1)] + ([] if q else [(2, 2, 2, 2), (1, 1, 2, 3)]):
+            f = c16.gen_case(g, kind, Dx, Dy, Dk, R=Rq)
+            out.append(dict(scn="feat_log_cond", f=f, q=lin.gen_pdfv(g, Rq, Dy + Dx, ctor="Sigma")))
+            f = c16.gen_case(g, kind, Dx, Dy, Dk, R=Rq)
+            out.append(dict(scn="feat_log_cond_y", f=f, ys=g.mat(g.choice([1, Rq]), Dy), callable=bool(g.randint(0, 1))))
     for _ in range(0 if q else 600):
         cls = g.choice(lin.CLS)
         c = lin.gen_cond(g, cls, 1, g.randint(1, 3), g.randint(1, 3))
@@ -78,6 +88,8 @@ def coq_term(d):
         f = d["f"]
         ft = "(factor_of_measure %s)" % lin.coq_pdfv(f) if f["kind"] == "pdf" else C.coq_factor(f)
         return "let u := %s in obs_mass u ++ dL %d (int_log_factor u %s)" % (coq_u(d["u"]), d["u"]["R"], ft)
+    if d["scn"].startswith("feat_"):
+        return coq_feat(d)
     c = lin.coq_cond(d["c"])
     if d["scn"] == "log_cond":
         R = max(lin.cond_R(d["c"]), d["q"]["R"])
@@ -108,6 +120,8 @@ def run_impl(d):
             ex.append(-0.5 * (np.trace(Lf[rf] @ S) + mu @ Lf[rf] @ mu) + nf[rf] @ mu + lbf[rf])
         lin.chk(fails, ["C14"], "integrate('log u(x)') = mass * E[ln f]", "measure.integrate_log_factor[%s]" % d["f"]["kind"], val / mass, np.array(ex))
         return ob, fails
+    if d["scn"].startswith("feat_"):
+        return run_feat(d, ob, fails)
     c, ckw = lin.impl_cond(d["c"])
     Dy, Dx = d["c"]["Dy"], d["c"]["Dx"]
     if d["scn"] == "log_cond":
@@ -142,4 +156,83 @@ def run_impl(d):
         res = y - M @ mp - b
         ex.append(-0.5 * (np.trace(M.T @ L @ M @ Sp) + res @ L @ res) - 0.5 * (Dy * math.log(2 * math.pi) + np.linalg.slogdet(Sy)[1]))
     lin.chk(fails, ["C14"], "integrate_log_conditional_y = E_p(x)[ln p(y|x)]", "cond[%s].integrate_log_conditional_y" % d["c"]["cls"], val, np.array(ex))
+    return ob, fails
+
+
+# ------------------------------------------------------------------ feature models (RBF / squared exponential), seams
+SEAMS = {}
+
+
+def kf_coq(f, lifted_Dy=None):
+    Dk, Dx = f["Dk"], f["Dx"]
+    if f["kind"] == "lrbf":
+        k = "(factor_of_measure (lrbf_kfunc LQ %d %d (lb2 %s) (lb2 %s)))" % (Dk, Dx, cmat(f["c"]), cmat(f["l"]))
+    else:
+        k = "(lsem_kfunc LQ %d %d (lb2 %s) (lv %s))" % (Dk, Dx, cmat([row[1:] for row in f["W"]]), cvec([row[0] for row in f["W"]]))
+    return k if lifted_Dy is None else "(lift_general %d %s)" % (lifted_Dy, k)
+
+
+def coq_feat(d):
+    f = d["f"]; Dx, Dy, Dk = f["Dx"], f["Dy"], f["Dk"]
+    seam = SEAMS[c16.gtlib_fp(d)]
+    M = "(lm %s)" % cmat(f["M"]); b = "(lv %s)" % cvec(f["b"])
+    Lam = "(lm %s)" % cmat(lin.finv(f["Sig"])); hS = "(lh %s 0%%N)" % cvec([lin.fdet(f["Sig"])])
+    if d["scn"] == "feat_log_cond":
+        R = d["q"]["R"]; q = lin.coq_pdfv(d["q"])
+        per = []
+        for r in range(R):
+            per.append("dumpL (feat_log_cond %d %d %d %s %s %s %s (getmu qq %d) (getS qq %d) (lv %s) (fun j => getmu pk (%d * %d + j)%%N) (lm %s))" % (
+                Dx, Dk, Dy, M, b, Lam, hS, r, r, cvec(seam["Ek"][r]), r, Dk, cmat(seam["Ekk"][r])))
+        return "let qq := %s in let pk := prepare (multiply true qq %s) in %s" % (q, kf_coq(f, Dy), " ++ ".join(per))
+    p = lin.coq_pdfv(f["p"]); R = f["R"]; N = len(d["ys"])
+    per = []
+    for k in range(max(R, N)):
+        r = 0 if R == 1 else k; n = 0 if N == 1 else k
+        per.append("dumpL (feat_log_cond_y %d %d %d %s %s %s %s (getmu pp %d) (getS pp %d) (lv %s) (fun j => getmu pk (%d * %d + j)%%N) (lm %s) (lv %s))" % (
+            Dx, Dk, Dy, M, b, Lam, hS, r, r, cvec(seam["Ek"][r]), r, Dk, cmat(seam["Ekk"][r]), cvec(d["ys"][n])))
+    return "let pp := %s in let pk := prepare (multiply true pp %s) in %s" % (p, kf_coq(f), " ++ ".join(per))
+
+
+def run_feat(d, ob, fails):
+    import numpy as np
+    I = gtlib.impl(); jnp = I["jnp"]
+    f = d["f"]; Dx, Dy, Dk = f["Dx"], f["Dy"], f["Dk"]
+    cnd, p_own = c16.build(f)
+    M = gtlib.fl(f["M"]); bb = gtlib.fl(f["b"]); Sy = gtlib.fl(f["Sig"]); Ly = np.linalg.inv(Sy)
+    const = -0.5 * (Dy * math.log(2 * math.pi) + np.linalg.slogdet(Sy)[1])
+    def feat(X):    # conditional mean M [x; k(x)] + b at the points X, by the object's own condition_on_x
+        return np.asarray(cnd.condition_on_x(jnp.array(X)).mu, dtype=float)
+    if d["scn"] == "feat_log_cond":
+        q = lin.impl_pdfv(d["q"]); R = d["q"]["R"]
+        px = q.get_marginal(jnp.arange(Dy, Dy + Dx))
+        pk = px.multiply(cnd.k_func, update_full=True); pkk = pk.multiply(cnd.k_func, update_full=True)
+        Ek = np.exp(np.asarray(pk.log_integral())).reshape(R, Dk); Ekk = np.exp(np.asarray(pkk.log_integral())).reshape(R, Dk, Dk)
+        SEAMS[c16.gtlib_fp(d)] = dict(Ek=c16.fr(Ek), Ekk=c16.fr(Ekk))
+        val = np.asarray(cnd.integrate_log_conditional(q), dtype=float)
+        ob.add("E_q[ln p(y|x)]", val)
+        ex = []
+        for r in range(R):
+            mq = gtlib.fl(d["q"]["mu"][r]); Sq = gtlib.fl(d["q"]["Sig"][r])
+            my, mx = mq[:Dy], mq[Dy:]; Syy, Syx, Sxx = Sq[:Dy, :Dy], Sq[:Dy, Dy:], Sq[Dy:, Dy:]
+            G = Syx @ np.linalg.inv(Sxx); Cc = Syy - G @ Syx.T
+            X, w = (c16.gl_nodes_1d(mx[0], math.sqrt(Sxx[0, 0]), []) if Dx == 1 else c16.gh_nodes(mx, Sxx, 110))
+            res = (my[None] + (X - mx[None]) @ G.T) - feat(X)
+            ex.append(float(w @ (-0.5 * (np.trace(Ly @ Cc) + np.einsum("ni,ij,nj->n", res, Ly, res)))) + const)
+        lin.chk(fails, ["C14"], "integrate_log_conditional = E_q[ln p(y|x)] (feature model)", "%s.integrate_log_conditional" % f["kind"], val, np.array(ex), tol=1e-7)
+        return ob, fails
+    p = p_own; R = f["R"]; N = len(d["ys"])
+    pk = p.multiply(cnd.k_func, update_full=True); pkk = pk.multiply(cnd.k_func, update_full=True)
+    Ek = np.exp(np.asarray(pk.log_integral())).reshape(R, Dk); Ekk = np.exp(np.asarray(pkk.log_integral())).reshape(R, Dk, Dk)
+    SEAMS[c16.gtlib_fp(d)] = dict(Ek=c16.fr(Ek), Ekk=c16.fr(Ekk))
+    ys = jarr(d["ys"])
+    val = np.asarray(cnd.integrate_log_conditional_y(p)(ys) if d["callable"] else cnd.integrate_log_conditional_y(p, y=ys), dtype=float)
+    ob.add("E_p(x)[ln p(y|x)]", val)
+    ex = []
+    for k in range(max(R, N)):
+        r = 0 if R == 1 else k; n = 0 if N == 1 else k
+        mx = gtlib.fl(f["p"]["mu"][r]); Sxx = gtlib.fl(f["p"]["Sig"][r]); y = gtlib.fl(d["ys"][n])
+        X, w = (c16.gl_nodes_1d(mx[0], math.sqrt(Sxx[0, 0]), []) if Dx == 1 else c16.gh_nodes(mx, Sxx, 110))
+        res = y[None] - feat(X)
+        ex.append(float(w @ (-0.5 * np.einsum("ni,ij,nj->n", res, Ly, res))) + const)
+    lin.chk(fails, ["C14"], "integrate_log_conditional_y = E_p(x)[ln p(y|x)] (feature model)", "%s.integrate_log_conditional_y" % f["kind"], val, np.array(ex), tol=1e-7)
     return ob, fails
